@@ -37,6 +37,8 @@ package syntax
 //@   tags C13, C10
 //@   returns (r, err)
 //@   ensures[C13] kind: !(value is rel.String || value is rel.Bytes) ==> err != nil
+// the csv reader is fed EXACTLY the bytes of a byte-array input (same slice: nothing trimmed, skipped or re-encoded)
+//@   ensures[C13] wholeinput: value is rel.Bytes ==> lastcall("bytes.NewBuffer", 0) == value.(rel.Bytes).b
 //@   loop 0 invariant rowsnn: forall k in 0..len(rows) :: rows[k] != nil
 //@   loop 1 invariant rownn: len(row) == len(record) && (forall k in 0..$idx :: row[k] != nil)
 //@   loop 1 invariant rowskeep: forall k in 0..len(rows) :: rows[k] != nil
